@@ -9,6 +9,9 @@ import RV.Base.Proto
     ctor x…                    -> ok | <error>     Collection(g, head, [x…])
     append x | iadd x… | set i x | del i | clear   -> ok | <error>
     len | iter | get i | index x | contains x      -> value | <error>
+    foreign lo hi              -> ok      (subjects lo..hi are foreign: excluded from the footprint of `snap`)
+    second h2                  -> L2=<list(Collection(g, h2))> N2=<len> F2=<the triples with a foreign subject>
+    ext                        -> IT=<list(g.items(head))> N3=<c.n3() with member k written <k>>
     snap lo hi m…              -> L=<iter> N=<len> G=<c[lo]>;…;<c[hi]> I=<index m>;… C=<m in c>;… F=<status>,<#list triples> X=<other triples>
 -/
 open RV RV.C19 RV.Proto
@@ -16,6 +19,11 @@ open RV RV.C19 RV.Proto
 structure D where
   s : St
   h : Term
+  /-- subjects in this range are *foreign* (another collection's private cells, junk): left out of the footprint -/
+  flo : Nat := 1
+  fhi : Nat := 0
+
+def D.isForeign (d : D) (t : Triple) : Bool := d.flo ≤ t.1 && t.1 ≤ d.fhi
 
 def showErr : Err → String
   | .indexError => "IndexError"
@@ -75,7 +83,20 @@ def mutD (d : D) (op : Op) : D × String :=
 def stepD (d : D) : List String → D × String
   | ["reset", h] =>
     match h.toNat? with
-    | some h => (⟨⟨[], 1000⟩, h⟩, "ok")
+    | some h => (⟨⟨[], 1000⟩, h, 1, 0⟩, "ok")
+    | none => (d, "bad-op")
+  | ["foreign", lo, hi] =>
+    match lo.toNat?, hi.toNat? with
+    | some lo, some hi => ({ d with flo := lo, fhi := hi }, "ok")
+    | _, _ => (d, "bad-op")
+  | ["second", h2] =>
+    -- another collection in the same graph, read through its own head; and the foreign triples
+    match h2.toNat? with
+    | some h2 =>
+      let ft := (d.s.g.filter d.isForeign).map (fun t => [t.1, t.2.1, t.2.2])
+      let xs := (sortBy lexLt ft).map (fun t => ".".intercalate (t.map toString))
+      (d, s!"L2={showOut (step h2 d.s .iter).2} N2={showOut (step h2 d.s .len).2} F2=" ++
+            (if xs.isEmpty then "-" else ";".intercalate xs))
     | none => (d, "bad-op")
   | ["t", a, b, c] =>
     match a.toNat?, b.toNat?, c.toNat? with
@@ -127,8 +148,14 @@ def stepD (d : D) : List String → D × String
       let is := ms.map (fun m => rd d (.index m))
       let cs := ms.map (fun m => rd d (.contains m))
       (d, s!"L={rd d .iter} N={rd d .len} G={";".intercalate gs} I={";".intercalate is} C={";".intercalate cs} "
-            ++ footprint d.s.g d.h)
+            ++ footprint (d.s.g.filter (fun t => !d.isForeign t)) d.h)
     | _, _, _ => (d, "bad-op")
+  | ["ext"] =>
+    -- Graph.items(head) called directly, and Collection.n3() with member k written `<k>`
+    let t := match n3 (fun k => ('<' :: (toString k).toList) ++ ['>']) d.s.g d.h with
+      | .ok cs => String.ofList cs
+      | .error e => showErr e
+    (d, s!"IT={rd d .iter} N3={t}")
   | _ => (d, "bad-op")
 
-def main : IO Unit := RV.Proto.run stepD (⟨⟨[], 1000⟩, 100⟩ : D)
+def main : IO Unit := RV.Proto.run stepD (⟨⟨[], 1000⟩, 100, 1, 0⟩ : D)
